@@ -147,14 +147,16 @@ FAULT_METHODS = {'bin': ['getInterfacialComposition', 'getDrivingForce'],
 def fault_cases(tier):
     quick = tier == 'quick'
     out = []
-    K1 = 25 if quick else 40
+    K1 = 12 if quick else 40
     K2 = 0 if quick else 16
     for system in ('bin', 'tern'):
         for it in ('euler', 'rk4'):
             for temp in (['iso', 'hrh', 'iso_hot'] if quick else ['iso', 'hrh', 'heat', 'iso_hot']):   # iso_hot: undersaturated
                 for pre in (False, True):
                     if pre and temp == 'iso_hot':
-                        continue      # a loaded distribution far above the solvus dissolves with time steps of 1e-7 s: outside the horizon
+                        continue
+                    if quick and pre and it == 'rk4' and temp == 'hrh':
+                        continue      # quick tier: the preloaded hold-ramp-hold base with Euler only      # a loaded distribution far above the solvus dissolves with time steps of 1e-7 s: outside the horizon
                     base = {'system': system, 'it': it, 'temp': temp, 'tf': 6.0, 'constraints': {'dtScale': 0.05},
                             'preload': pre, 'max_steps': 3000}
                     for meth in FAULT_METHODS[system]:
@@ -172,7 +174,7 @@ def run(ctx):
                 'faults: every placement of 0/1 (thorough: 2) "no result" answers among the first K interceptable calls of each '
                 'backend method; non-trivial = run with precipitates / execution with a fault placement')
     ctx.bounds = {'config_runs': len(cc), 'fault_groups': len(fc),
-                  'K_single': 25 if ctx.quick else 40, 'K_pairs': 0 if ctx.quick else 16, 'fault_methods': FAULT_METHODS}
+                  'K_single': 12 if ctx.quick else 40, 'K_pairs': 0 if ctx.quick else 16, 'fault_methods': FAULT_METHODS}
     ctx.assumptions = ['analytic backends; a fault is the documented "no result" answer of the method: None for '
                        'getGrowthAndInterfacialComposition, the previous/None impingement factor, (None, None) for getDrivingForce, '
                        'the -1 sentinel for getInterfacialComposition']
